@@ -1,7 +1,7 @@
 """
 C20  Application wrappers follow their life cycle and always clean up.
 
-Three families of histories (op-lists of <= 8 calls), each interpreted step by
+Four families of histories (op-lists of <= 8 calls), each interpreted step by
 step on the real wrapper and on a reference state machine of the documented
 life cycle CREATED -> RUNNING -> FINISHED -> JOINED | CANCELLED:
 
@@ -11,6 +11,11 @@ life cycle CREATED -> RUNNING -> FINISHED -> JOINED | CANCELLED:
 * ``msa_*``    ``ClustalOmegaApp``, ``MafftApp``, ``MuscleApp``, ``Muscle5App`` driving
                the fake MSA tools of ``fixtures/bin`` (behaviour chosen per case
                through the control file named by ``VERIF_FAKE_CTL``).
+* ``tool_*``   ``TantanApp``, ``RNAfoldApp``, ``RNAplotApp``, ``RNAalifoldApp``, ``DsspApp`` driving
+               fake_tantan / fake_rnafold / fake_rnaplot / fake_rnaalifold / fake_dssp
+               (``fixtures/bin/fakelib_tools.py``): the tool's answer (mask intervals, structure,
+               energies, coordinates, SSE letters) is chosen by the case, the tool derives it from
+               the input it really read and logs that input.
 
 The oracle decides for every call whether it must succeed or raise
 ``AppStateError`` (and then leave cwd, temp files, child process and clean-up
@@ -63,7 +68,9 @@ _CLASS_CACHE = {}
 
 
 def setup():
-    for name in ("fake_clustalo", "fake_mafft", "fake_muscle3", "fake_muscle5", "fake_generic"):
+    names = ["fake_clustalo", "fake_mafft", "fake_muscle3", "fake_muscle5", "fake_generic"]
+    names += ["fake_tantan", "fake_rnafold", "fake_rnaplot", "fake_rnaalifold", "fake_dssp"]
+    for name in names:
         p = BIN / name
         if not (p.exists() and os.access(p, os.X_OK)):
             raise RuntimeError(f"fixture {p} is missing or not executable")
@@ -1390,6 +1397,811 @@ def run_msa(case):
     return o
 
 
+# ==========================================================================
+# 4. the other LocalApp wrappers: tantan, RNAfold, RNAplot, RNAalifold, DSSP
+# ==========================================================================
+# Candidate findings (analysis and reproducers: notes/C20-wrappers.md).  While a candidate is listed
+# here its input class is narrowed out of the cases inside run_tool() and counted with o.exclude();
+# VERIF_C20_DRIVE_CANDIDATES=1 drives the classes instead (to reproduce the candidates).
+# Both candidates found when this section was written were repaired in /repo (known_findings.json:
+# C20-f "non-UTF-8 output", C20-g "RNAplot clean_up"); the narrowing stays in the code for a future
+# open finding but the set is empty, so every class is driven.
+OPEN_CANDIDATES = set()
+
+
+def _candidate_open(fid):
+    return fid in OPEN_CANDIDATES and not os.environ.get("VERIF_C20_DRIVE_CANDIDATES")
+
+
+TOOL_APPS = {
+    "tantan": {"tool": "fake_tantan", "getters": ["get_mask"], "garbage": ["non_ascii"], "missing": False},
+    "rnafold": {
+        "tool": "fake_rnafold",
+        "result_on_stdout": True,
+        "getters": ["get_free_energy", "get_dot_bracket", "get_base_pairs"],
+        "garbage": ["text", "bad_energy", "no_energy"],
+        "missing": True,
+    },
+    "rnaplot": {"tool": "fake_rnaplot", "getters": ["get_coordinates"], "garbage": ["text", "ragged", "binary_file"], "missing": True},
+    "rnaalifold": {
+        "tool": "fake_rnaalifold",
+        "result_on_stdout": True,
+        "getters": [
+            "get_free_energy",
+            "get_covariance_energy",
+            "get_consensus_sequence_string",
+            "get_dot_bracket",
+            "get_base_pairs",
+            "get_base_pairs:0",
+            "get_base_pairs:1",
+            "get_base_pairs:3",
+        ],
+        "garbage": ["text", "bad_energy", "no_energy"],
+        "missing": True,
+    },
+    "dssp": {"tool": "fake_dssp", "getters": ["get_sse"], "garbage": ["text", "no_header", "short_lines", "binary_file"], "missing": True},
+}
+TOOL_VALUE_OPTS = {
+    "tantan": {"-m", "-x"},
+    "rnafold": {"-T"},
+    "rnaplot": {"-i", "--output-format", "-t"},
+    "rnaalifold": {"-T"},
+    "dssp": {"-i", "-o"},
+}
+RES_NAMES = ["ALA", "GLY", "SER", "TRP", "LYS", "GLU", "PRO", "HIS"]
+SSE_LETTERS = "HBEGITSP "
+DSSP_VERSIONS = {"4.4": "mkdssp version 4.4.0\n", "4.0": "mkdssp 4.0\n", "3.1": "mkdssp version 3.1.4\n", "none": "mkdssp: no version information\n"}
+
+
+def st_tool(tier):
+    quick = tier == "quick"
+    maxlen = 12 if quick else 40
+    raw = st.integers(0, 60)
+    raw_pairs = st.lists(st.lists(raw, min_size=2, max_size=2), max_size=4 if quick else 10)
+    temperature = st.sampled_from([None, None, 25, 37, 60, 4])
+    energy = st.integers(-9999, 999)
+
+    constraint = st.fixed_dictionaries(
+        {
+            "pairs": raw_pairs,
+            "marks": st.lists(st.tuples(raw, st.sampled_from("|x<>")).map(list), max_size=4),
+            "enforce": st.booleans(),
+            "as_mask": st.booleans(),
+            "flip": st.booleans(),
+        }
+    )
+    fold_setters = st.one_of(
+        st.sampled_from([25, 30, 42]).map(lambda t: ["set_temperature", t]),
+        constraint.map(lambda c: ["set_constraints", c]),
+        constraint.map(lambda c: ["set_constraints", c]),
+    )
+
+    @st.composite
+    def gen(draw):
+        app = draw(st.sampled_from(sorted(TOOL_APPS)))
+        spec = TOOL_APPS[app]
+        case = {"app": app}
+        setters = []
+        if app == "tantan":
+            seqtype = draw(st.sampled_from(["protein", "nucleotide"]))
+            as_list = draw(st.booleans())
+            nseq = draw(st.integers(1, 4)) if as_list else 1
+            letters = PROTEIN_LETTERS if seqtype == "protein" else draw(st.sampled_from(["ACGT", "ACGT", "ACGTNRY"]))
+            case["input"] = {
+                "seqtype": seqtype,
+                "as_list": as_list,
+                "seqs": draw(st.lists(st.text(letters, min_size=1, max_size=maxlen * 8 if draw(st.integers(0, 9)) == 0 else maxlen), min_size=nseq, max_size=nseq)),
+                "matrix": draw(st.booleans()),
+            }
+            case["plan"] = {
+                "masks": draw(st.lists(st.lists(st.lists(raw, min_size=2, max_size=2), max_size=3), min_size=nseq, max_size=nseq)),
+                "wrap": draw(st.sampled_from([0, 3, 7, 60])),
+            }
+        elif app == "rnafold":
+            letters = draw(st.sampled_from(["ACGT", "ACGT", "ACGTN"]))
+            case["input"] = {"seq": draw(st.text(letters, min_size=1, max_size=maxlen)), "temperature": draw(temperature)}
+            case["plan"] = {"pairs": draw(raw_pairs), "energy": draw(energy)}
+            setters = draw(st.lists(fold_setters, min_size=3, max_size=3))
+        elif app == "rnaplot":
+            case["input"] = {
+                "by": draw(st.sampled_from(["dot_bracket", "base_pairs"])),
+                "n": draw(st.integers(2, maxlen)),
+                "pairs": draw(raw_pairs),
+                "flip": draw(st.booleans()),
+                "layout": draw(st.sampled_from([None, None, 0, 1, 2, 3, 4])),
+            }
+            case["plan"] = {"coord_seed": draw(st.integers(0, 2**31))}
+            setters = [["set_layout_type", k] for k in draw(st.lists(st.integers(0, 4), min_size=2, max_size=2))]
+        elif app == "rnaalifold":
+            nseq = draw(st.integers(2, 5))
+            case["input"] = {
+                "seqs": draw(st.lists(st.text("ACGT", min_size=1, max_size=maxlen), min_size=nseq, max_size=nseq)),
+                "gap_raw": draw(st.lists(st.lists(st.integers(0, 40), min_size=1, max_size=4), min_size=nseq, max_size=nseq)),
+                "extra_cols": draw(st.integers(0, 3)),
+                "temperature": draw(temperature),
+            }
+            case["plan"] = {"pairs": draw(raw_pairs), "free": draw(energy), "cov": draw(energy), "consensus_seed": draw(st.integers(0, 2**31))}
+            setters = draw(st.lists(fold_setters, min_size=3, max_size=3))
+        else:
+            nres = draw(st.integers(1, maxlen))
+            case["input"] = {
+                # per residue: starts a new chain?, step of the residue number, residue name
+                "residues": draw(
+                    st.lists(
+                        st.tuples(st.sampled_from([False] * 5 + [True]), st.sampled_from([1, 1, 1, 2, 5]), st.integers(0, len(RES_NAMES) - 1)).map(list),
+                        min_size=nres,
+                        max_size=nres,
+                    )
+                ),
+                "natoms": draw(st.integers(1, 4)),
+                "annotated": draw(st.booleans()),
+                "coord_seed": draw(st.integers(0, 2**31)),
+            }
+            case["plan"] = {"sse": draw(st.text(SSE_LETTERS, min_size=nres, max_size=nres))}
+            case["version"] = draw(st.sampled_from(["4.4", "4.4", "4.0", "3.1", "none"]))
+        modes = ["ok"] * 4 + ["exit"] * 2 + ["garbage"] * 2 + (["missing"] if spec["missing"] else [])
+        mode = draw(st.sampled_from(modes))
+        tool = {
+            "mode": mode,
+            "gate": draw(st.sampled_from([False, False, False, True])),
+            "stderr": draw(ST_STDERR),
+            "early_output": draw(st.booleans()),
+        }
+        if mode == "exit":
+            tool["exit_code"] = draw(st.sampled_from([1, 2, 3, 77, 255]))
+            tool["write_before_exit"] = draw(st.booleans())
+        elif mode == "garbage":
+            # "binary" = stdout is not UTF-8; only where stdout is the result and one line of it can never be
+            # parsed, so that the join must fail however the bytes are decoded (class of C20-F1-candidate)
+            tool["garbage"] = draw(st.sampled_from(spec["garbage"] * 3 + (["binary"] * 2 if spec.get("result_on_stdout") else [])))
+        elif mode == "missing":
+            tool["unlink_out"] = draw(st.booleans())
+        case["tool"] = tool
+        case["bin"] = draw(st.sampled_from(["ok"] * 14 + ["missing", "noexec"]))
+        common = COMMON_SETTERS
+        if app == "rnaplot":
+            # RNAplot writes ./rna.ss and the wrapper reads ./rna.ss: only meaningful with exec dir = cwd
+            common = [op for op in COMMON_SETTERS if not (op[0] == "set_exec_dir" and op[1] in (0, 1))]
+        ops = draw(st_ops(setters * 3 + common, spec["getters"] * 2 + COMMON_GETTERS, tool["gate"]))
+        if setters and draw(st.sampled_from([False] * 4 + [True])):
+            # an option set again before the start replaces the earlier value
+            ops = [draw(st.sampled_from(setters)), draw(st.sampled_from(setters))] + ops
+        if app == "rnaplot":
+            ops = [op for op in ops if not (op[0] == "set_exec_dir" and op[1] in (0, 1))]
+        case["ops"] = ops
+        return case
+
+    return gen()
+
+
+def _structure(n, raw_pairs):
+    """A nested (pseudoknot free) structure of length n from raw index pairs: (dot-bracket, pairs)."""
+    partner = [-1] * n
+    pairs = []
+    for a, b in raw_pairs:
+        if n < 2:
+            break
+        i, j = sorted((a % n, b % n))
+        if i == j or partner[i] != -1 or partner[j] != -1:
+            continue
+        if any((p < i < q < j) or (i < p < j < q) for p, q in pairs):
+            continue
+        partner[i], partner[j] = j, i
+        pairs.append((i, j))
+    db = "".join("." if partner[k] == -1 else ("(" if partner[k] > k else ")") for k in range(n))
+    return db, sorted(pairs)
+
+
+def _pairs_of(dotbracket):
+    """Base pairs of a '(' ')' '.' string by a stack; None if it is not balanced."""
+    stack, pairs = [], []
+    for i, c in enumerate(dotbracket):
+        if c == "(":
+            stack.append(i)
+        elif c == ")":
+            if not stack:
+                return None
+            pairs.append((stack.pop(), i))
+        elif c != ".":
+            return None
+    return None if stack else sorted(pairs)
+
+
+def _constraint(n, spec):
+    """(constraint string the tool must receive, keyword arguments for set_constraints)."""
+    import numpy as np
+
+    db, pairs = _structure(n, spec["pairs"])
+    chars = list(db)
+    for pos, role in spec["marks"]:
+        if chars[pos % n] == ".":
+            chars[pos % n] = role
+    if all(c == "." for c in chars):
+        chars[0] = "x"
+    kwargs = {}
+    if pairs:
+        arr = np.array(pairs, dtype=int)
+        if spec["flip"]:
+            arr[::2] = arr[::2, ::-1]  # the order within a pair must not matter
+        kwargs["pairs"] = arr
+    for key, role in (("paired", "|"), ("unpaired", "x"), ("downstream", "<"), ("upstream", ">")):
+        mask = np.array([c == role for c in chars])
+        if mask.any():
+            kwargs[key] = mask if spec["as_mask"] else np.where(mask)[0]
+    kwargs["enforce"] = bool(spec["enforce"])
+    return "".join(chars), kwargs
+
+
+def _pair_set(val):
+    import numpy as np
+
+    arr = np.asarray(val)
+    if arr.size == 0:
+        return []
+    return sorted(tuple(sorted(int(x) for x in row)) for row in arr.reshape(-1, 2))
+
+
+def _split_argv(app, argv):
+    opts, flags, positional = {}, [], []
+    takes = TOOL_VALUE_OPTS[app]
+    i = 0
+    while i < len(argv):
+        a = argv[i]
+        if a in takes and i + 1 < len(argv):
+            opts[a] = argv[i + 1]
+            i += 2
+        elif a.startswith("-") and len(a) > 1:
+            flags.append(a)
+            i += 1
+        else:
+            positional.append(a)
+            i += 1
+    return opts, flags, positional
+
+
+class ToolModel(LocalModel):
+    """LocalModel + the working directory of the case is looked at, too."""
+
+    def op_start(self):
+        super().op_start()
+        if self.state == "RUNNING" and self.app.verif_proc is not None and "after_start" in self.hooks:
+            self.hooks["after_start"]()
+
+    def check_terminal(self, first, where):
+        super().check_terminal(first, where)
+        self.o.check_eq(sorted(os.listdir(self.sess.cwd0)), [], "no_temp_file_left", f"working directory {where} (path {self.path})")
+
+
+# ---- one driver per wrapper: everything that depends on the wrapper's own API -------------
+class _Driver:
+    """settings = what the accepted setter calls have set (the model of the options)."""
+
+    def __init__(self, case, o, sess):
+        self.case, self.o, self.sess = case, o, sess
+        self.inp, self.tool = case["input"], case["tool"]
+        self.app = None
+
+    plan = None
+    setter_names = ()
+
+    def construct(self, cls, bin_path):
+        raise NotImplementedError
+
+    def op(self, model, op):
+        raise RuntimeError(f"unknown op {op}")
+
+    def getter(self, model, g):
+        ok, val = model.guarded(("JOINED",), getattr(self.app, g), g)
+        if ok:
+            self.check_value(model, g, val)
+
+    def check_results(self, model):
+        for g in dict.fromkeys(TOOL_APPS[self.case["app"]]["getters"]):
+            self.getter(model, g)
+
+    def input_record(self):
+        inputs = [r for r in self.sess.log() if r.get("phase") == "input"]
+        if self.o.check_eq(len(inputs), 1, "tool_started_once", "input records"):
+            return inputs[0]
+        return None
+
+
+class _Tantan(_Driver):
+    def __init__(self, case, o, sess):
+        super().__init__(case, o, sess)
+        import numpy as np
+
+        masks, plan = [], []
+        for seq, raws in zip(self.inp["seqs"], case["plan"]["masks"]):
+            n = len(seq)
+            mask = np.zeros(n, dtype=bool)
+            intervals = []
+            for a, b in raws:
+                start = a % (n + 1)
+                stop = min(n, start + b % (n + 1))
+                intervals.append([start, stop])
+                mask[start:stop] = True
+            masks.append(mask)
+            plan.append(intervals)
+        self.masks = masks
+        self.plan = {"masks": plan, "wrap": case["plan"]["wrap"]}
+        o.label("tantan:" + self.inp["seqtype"], "tantan:list" if self.inp["as_list"] else "tantan:single")
+        if any(m.any() for m in masks):
+            o.label("tantan:masked")
+
+    def construct(self, cls, bin_path):
+        from biotite.sequence import NucleotideSequence, ProteinSequence
+        from biotite.sequence.align import SubstitutionMatrix
+
+        if self.inp["seqtype"] == "protein":
+            seqs = [ProteinSequence(s) for s in self.inp["seqs"]]
+            matrix = SubstitutionMatrix.std_protein_matrix()
+        else:
+            amb = any(c not in "ACGT" for s in self.inp["seqs"] for c in s)
+            seqs = [NucleotideSequence(s, ambiguous=amb) for s in self.inp["seqs"]]
+            matrix = SubstitutionMatrix.std_nucleotide_matrix()
+        self.matrix = matrix if self.inp["matrix"] else None
+        self.app = cls(seqs if self.inp["as_list"] else seqs[0], self.matrix, bin_path)
+        return self.app
+
+    def check_value(self, model, g, val):
+        import numpy as np
+
+        o = self.o
+        if self.inp["as_list"]:
+            if not o.check(isinstance(val, list) and len(val) == len(self.masks), "results_equal_tool_output", f"get_mask: {val!r:.200}"):
+                return
+        else:
+            val = [val]
+        for i, (got, want) in enumerate(zip(val, self.masks)):
+            if o.check(isinstance(got, np.ndarray) and got.dtype == bool, "results_equal_tool_output", f"mask {i}: {got!r:.100}"):
+                o.check_array_eq(got, want, "mask_equals_tool_output", f"mask of sequence {i}")
+
+    def check_argv(self, model, argv):
+        o = self.o
+        opts, flags, positional = _split_argv("tantan", argv)
+        o.check_eq(opts.get("-x"), "!", "options_passed_to_tool", f"masking letter in {argv}")
+        o.check_eq("-p" in flags, self.inp["seqtype"] == "protein", "options_passed_to_tool", f"-p in {argv}")
+        o.check_eq("-m" in opts, self.matrix is not None, "matrix_passed_to_tool", f"-m in {argv}")
+        o.check_eq(len(positional), 1, "options_passed_to_tool", f"one input file in {argv}")
+
+    def check_input(self):
+        rec = self.input_record()
+        if rec is None:
+            return
+        want = [[f"sequence_{i}", s] for i, s in enumerate(self.inp["seqs"])]
+        self.o.check_eq(rec["entries"], want, "input_sequences_passed_to_tool", "FASTA the tool read")
+        self.o.check_eq(rec["matrix"], None if self.matrix is None else str(self.matrix), "matrix_passed_to_tool", "matrix file")
+
+
+class _Fold(_Driver):
+    """RNAfoldApp and RNAalifoldApp: temperature and constraints."""
+
+    def length(self):
+        raise NotImplementedError
+
+    def op(self, model, op):
+        s = model.settings
+        if op[0] == "set_temperature":
+            ok, _ = model.guarded(("CREATED",), lambda: self.app.set_temperature(op[1]), op[0])
+            if ok:
+                s["T"] = op[1]
+        elif op[0] == "set_constraints":
+            text, kwargs = _constraint(self.length(), op[1])
+            ok, _ = model.guarded(("CREATED",), lambda: self.app.set_constraints(**kwargs), op[0])
+            if ok:
+                s["constraint"] = text
+                s["enforce"] = kwargs["enforce"]
+                self.o.label(self.case["app"] + ":constraints")
+        else:
+            raise RuntimeError(f"unknown op {op}")
+
+    def check_argv(self, model, argv):
+        o = self.o
+        s = model.settings
+        opts, flags, positional = _split_argv(self.case["app"], argv)
+        temp = s.get("T", self.inp["temperature"] if self.inp["temperature"] is not None else 37)
+        o.check_eq(opts.get("-T"), str(temp), "options_passed_to_tool", f"temperature in {argv}")
+        o.check_eq("-C" in flags, "constraint" in s, "options_passed_to_tool", f"-C in {argv}")
+        o.check_eq("--enforceConstraint" in flags, bool(s.get("enforce")), "options_passed_to_tool", f"--enforceConstraint in {argv}")
+        o.check_eq(len(positional), 1, "options_passed_to_tool", f"one input file in {argv}")
+
+    def ctor_kwargs(self):
+        return {} if self.inp["temperature"] is None else {"temperature": self.inp["temperature"]}
+
+
+class _RNAfold(_Fold):
+    def __init__(self, case, o, sess):
+        super().__init__(case, o, sess)
+        n = len(self.inp["seq"])
+        self.db, self.pairs = _structure(n, case["plan"]["pairs"])
+        self.energy = float(f"{case['plan']['energy'] / 100:.2f}")
+        self.plan = {"dotbracket": self.db, "energy": self.energy}
+        if self.pairs:
+            o.label("rnafold:paired")
+
+    def length(self):
+        return len(self.inp["seq"])
+
+    def construct(self, cls, bin_path):
+        from biotite.sequence import NucleotideSequence
+
+        seq = NucleotideSequence(self.inp["seq"], ambiguous=any(c not in "ACGT" for c in self.inp["seq"]))
+        self.app = cls(seq, bin_path=bin_path, **self.ctor_kwargs())
+        return self.app
+
+    def check_value(self, model, g, val):
+        o = self.o
+        if g == "get_free_energy":
+            o.check(isinstance(val, float) and val == self.energy, "energy_equals_tool_output", f"{g}: {val!r}, tool printed {self.energy}")
+        elif g == "get_dot_bracket":
+            o.check_eq(val, self.db, "structure_equals_tool_output", g)
+        else:
+            o.check_eq(_pair_set(val), self.pairs, "base_pairs_equal_tool_structure", f"{g} for {self.db}")
+
+    def check_input(self):
+        rec = self.input_record()
+        if rec is None:
+            return
+        s = self.model.settings
+        self.o.check_eq(rec["seq"], self.inp["seq"], "input_sequences_passed_to_tool", "sequence line the tool read")
+        self.o.check_eq(rec["rest"], [s["constraint"]] if "constraint" in s else [], "constraints_passed_to_tool", "lines after the sequence")
+
+
+class _RNAalifold(_Fold):
+    def __init__(self, case, o, sess):
+        super().__init__(case, o, sess)
+        import numpy as np
+
+        seqs = self.inp["seqs"]
+        self.pats = _patterns([len(s) for s in seqs], self.inp["gap_raw"], self.inp["extra_cols"])
+        self.width = len(self.pats[0])
+        self.rows = []
+        for s, pat in zip(seqs, self.pats):
+            it = iter(s)
+            self.rows.append("".join(next(it) if c == "x" else "-" for c in pat))
+        self.db, self.pairs = _structure(self.width, case["plan"]["pairs"])
+        self.free = float(f"{case['plan']['free'] / 100:.2f}")
+        self.cov = float(f"{case['plan']['cov'] / 100:.2f}")
+        rng = np.random.default_rng(case["plan"]["consensus_seed"])
+        self.consensus = "".join("ACGU_"[k] for k in rng.integers(0, 5, size=self.width))
+        self.plan = {"dotbracket": self.db, "free": self.free, "cov": self.cov, "consensus": self.consensus}
+        if self.pairs:
+            o.label("rnaalifold:paired")
+
+    def length(self):
+        return self.width
+
+    def construct(self, cls, bin_path):
+        import numpy as np
+        from biotite.sequence import NucleotideSequence
+        from biotite.sequence.align import Alignment
+
+        seqs = [NucleotideSequence(s) for s in self.inp["seqs"]]
+        self.trace = np.array(_expected_trace(self.pats), dtype=np.int64)
+        self.app = cls(Alignment(seqs, self.trace, score=0), bin_path=bin_path, **self.ctor_kwargs())
+        return self.app
+
+    def getter(self, model, g):
+        if g.startswith("get_base_pairs:"):
+            k = int(g.split(":")[1]) % len(self.inp["seqs"])
+            ok, val = model.guarded(("JOINED",), lambda: self.app.get_base_pairs(sequence_index=k), g)
+            if ok:
+                pos = self.trace[:, k]
+                want = sorted((int(pos[i]), int(pos[j])) for i, j in self.pairs if pos[i] != -1 and pos[j] != -1)
+                self.o.check_eq(_pair_set(val), want, "base_pairs_mapped_to_sequence", f"get_base_pairs(sequence_index={k}) for {self.db} and row {self.rows[k]}")
+                self.o.label("rnaalifold:pairs_of_sequence")
+        else:
+            super().getter(model, g)
+
+    def check_value(self, model, g, val):
+        o = self.o
+        if g == "get_free_energy":
+            o.check(isinstance(val, float) and val == self.free, "energy_equals_tool_output", f"{g}: {val!r}, tool printed {self.free}")
+        elif g == "get_covariance_energy":
+            o.check(isinstance(val, float) and val == self.cov, "energy_equals_tool_output", f"{g}: {val!r}, tool printed {self.cov}")
+        elif g == "get_consensus_sequence_string":
+            o.check_eq(val, self.consensus, "consensus_equals_tool_output", g)
+        elif g == "get_dot_bracket":
+            o.check_eq(val, self.db, "structure_equals_tool_output", g)
+        else:
+            o.check_eq(_pair_set(val), self.pairs, "base_pairs_equal_tool_structure", f"{g} for {self.db}")
+
+    def check_input(self):
+        rec = self.input_record()
+        if rec is None:
+            return
+        s = self.model.settings
+        self.o.check_eq(rec["entries"], [[str(i), r] for i, r in enumerate(self.rows)], "input_sequences_passed_to_tool", "alignment the tool read")
+        got = rec["constraint"]
+        self.o.check_eq(
+            None if got is None else got.rstrip("\n"), s.get("constraint"), "constraints_passed_to_tool", "constraint the tool read from stdin"
+        )
+
+
+class _RNAplot(_Driver):
+    def __init__(self, case, o, sess):
+        super().__init__(case, o, sess)
+        import numpy as np
+
+        self.n = self.inp["n"]
+        self.db, self.pairs = _structure(self.n, self.inp["pairs"])
+        rng = np.random.default_rng(case["plan"]["coord_seed"])
+        self.coords = rng.integers(-20000, 20001, size=(self.n, 2))
+        self.plan = {"coords": self.coords.tolist()}
+        o.label("rnaplot:by_" + self.inp["by"])
+
+    def construct(self, cls, bin_path):
+        import numpy as np
+        from biotite.application.viennarna import RNAplotApp
+
+        kwargs = {"bin_path": bin_path}
+        if self.inp["layout"] is not None:
+            kwargs["layout_type"] = RNAplotApp.Layout(self.inp["layout"])
+        if self.inp["by"] == "dot_bracket":
+            kwargs["dot_bracket"] = self.db
+        else:
+            arr = np.array(self.pairs, dtype=int).reshape(-1, 2)
+            if self.inp["flip"]:
+                arr[::2] = arr[::2, ::-1]
+            kwargs["base_pairs"] = arr
+            kwargs["length"] = self.n
+        self.app = cls(**kwargs)
+        return self.app
+
+    def op(self, model, op):
+        from biotite.application.viennarna import RNAplotApp
+
+        if op[0] == "set_layout_type":
+            ok, _ = model.guarded(("CREATED",), lambda: self.app.set_layout_type(RNAplotApp.Layout(op[1])), op[0])
+            if ok:
+                model.settings["layout"] = op[1]
+        else:
+            raise RuntimeError(f"unknown op {op}")
+
+    def check_value(self, model, g, val):
+        import numpy as np
+
+        if self.o.check(isinstance(val, np.ndarray), "results_equal_tool_output", f"{g}: {type(val)}"):
+            self.o.check_array_eq(val, self.coords / 100, "coordinates_equal_tool_output", g)
+
+    def check_argv(self, model, argv):
+        o = self.o
+        opts, _, _ = _split_argv("rnaplot", argv)
+        layout = model.settings.get("layout", self.inp["layout"] if self.inp["layout"] is not None else 1)
+        o.check_eq(opts.get("-t"), str(layout), "options_passed_to_tool", f"layout type in {argv}")
+        o.check_eq(opts.get("--output-format"), "xrna", "options_passed_to_tool", f"output format in {argv}")
+        o.check("-i" in opts, "options_passed_to_tool", f"input file in {argv}")
+
+    def check_input(self):
+        rec = self.input_record()
+        if rec is None:
+            return
+        lines = rec["lines"]
+        if self.o.check(len(lines) == 2 and len(lines[0]) == self.n, "input_structure_passed_to_tool", f"input file lines {lines}"):
+            if self.inp["by"] == "dot_bracket":
+                self.o.check_eq(lines[1], self.db, "input_structure_passed_to_tool", "structure line the tool read")
+            else:
+                self.o.check(
+                    len(lines[1]) == self.n and _pairs_of(lines[1]) == self.pairs,
+                    "input_structure_passed_to_tool",
+                    f"structure line {lines[1]} for pairs {self.pairs} and length {self.n}",
+                )
+
+
+class _Dssp(_Driver):
+    def __init__(self, case, o, sess):
+        super().__init__(case, o, sess)
+        nres = len(self.inp["residues"])
+        sse = (case["plan"]["sse"] + " " * nres)[:nres]
+        self.plan = {"sse": sse}
+        self.sse = ["C" if c == " " else c for c in sse]
+        self.version = case.get("version", "4.4")
+        o.label("dssp:version=" + self.version)
+
+    def build(self):
+        import numpy as np
+        from biotite.structure import AtomArray
+
+        names = ["N", "CA", "C", "O"][: self.inp["natoms"]]
+        n = len(self.inp["residues"]) * len(names)
+        arr = AtomArray(n)
+        rng = np.random.default_rng(self.inp["coord_seed"])
+        arr.coord = (rng.integers(-800, 801, size=(n, 3)) * 0.125).astype(np.float32)
+        chain, rid, k = 0, 0, 0
+        breaks = 0
+        for idx, (new_chain, step, name) in enumerate(self.inp["residues"]):
+            if new_chain and idx > 0 and chain < 5:
+                chain, rid = chain + 1, 0
+                breaks += 1
+            elif idx > 0 and step > 1:
+                breaks += 1
+            rid += step
+            for a in names:
+                arr.chain_id[k] = "ABCDEF"[chain]
+                arr.res_id[k] = rid
+                arr.res_name[k] = RES_NAMES[name]
+                arr.atom_name[k] = a
+                arr.element[k] = a[0]
+                k += 1
+        if self.inp["annotated"]:
+            arr.set_annotation("charge", np.zeros(n, dtype=int))
+            arr.set_annotation("b_factor", np.full(n, 20.0))
+            arr.set_annotation("occupancy", np.ones(n))
+        if breaks:
+            self.o.label("dssp:break_lines")
+        return arr
+
+    def construct(self, cls, bin_path):
+        self.array = self.build()
+        self.app = cls(self.array, bin_path)
+        return self.app
+
+    def check_value(self, model, g, val):
+        import numpy as np
+
+        o = self.o
+        if o.check(isinstance(val, np.ndarray) and val.dtype.kind == "U", "results_equal_tool_output", f"{g}: {val!r:.100}"):
+            o.check_eq(val.tolist(), self.sse, "sse_per_residue_equals_tool_output", g)
+
+    def check_argv(self, model, argv):
+        opts, _, positional = _split_argv("dssp", argv)
+        if self.version.startswith("4"):
+            self.o.check(len(positional) == 2 and not opts, "options_passed_to_tool", f"mkdssp >= 4 takes <in> <out>: {argv}")
+        else:
+            self.o.check("-i" in opts and "-o" in opts and not positional, "options_passed_to_tool", f"mkdssp < 4 takes -i <in> -o <out>: {argv}")
+
+    def check_input(self):
+        rec = self.input_record()
+        if rec is None:
+            return
+        o = self.o
+        col = {c: k for k, c in enumerate(rec["columns"])}
+        arr = self.array
+        if not o.check_eq(len(rec["rows"]), arr.array_length(), "input_structure_passed_to_tool", "number of atoms the tool read"):
+            return
+        need = ["label_atom_id", "label_comp_id", "label_asym_id", "label_seq_id", "Cartn_x", "Cartn_y", "Cartn_z"]
+        if not o.check(all(c in col for c in need), "input_structure_passed_to_tool", f"atom_site columns {rec['columns']}"):
+            return
+        got = [[r[col[c]] for c in need[:4]] + [float(r[col[c]]) for c in need[4:]] for r in rec["rows"]]
+        want = [
+            [str(arr.atom_name[i]), str(arr.res_name[i]), str(arr.chain_id[i]), str(int(arr.res_id[i]))] + [float(x) for x in arr.coord[i]]
+            for i in range(arr.array_length())
+        ]
+        o.check_eq(got, want, "input_structure_passed_to_tool", "atoms the tool read")
+
+
+_DRIVERS = {"tantan": _Tantan, "rnafold": _RNAfold, "rnaplot": _RNAplot, "rnaalifold": _RNAalifold, "dssp": _Dssp}
+
+
+def _tool_class(name):
+    from biotite.application.dssp import DsspApp
+    from biotite.application.tantan import TantanApp
+    from biotite.application.viennarna import RNAalifoldApp, RNAfoldApp, RNAplotApp
+
+    return {"tantan": TantanApp, "rnafold": RNAfoldApp, "rnaplot": RNAplotApp, "rnaalifold": RNAalifoldApp, "dssp": DsspApp}[name]
+
+
+def _narrow_tool(case, o):
+    """The behaviour of the fake tool after the input classes of the open candidates are taken out."""
+    app = case["app"]
+    spec = TOOL_APPS[app]
+    tool = dict(case["tool"])
+    if tool["mode"] == "missing" and not spec["missing"]:
+        tool["mode"] = "ok"  # an empty answer is a valid "nothing is masked" (only hand-written cases come here)
+    if tool["mode"] == "garbage" and tool.get("garbage") == "binary":
+        if not spec.get("result_on_stdout"):
+            tool["garbage"] = spec["garbage"][0]  # only hand-written cases come here
+        elif _candidate_open("C20-F1-candidate"):
+            tool["garbage"] = spec["garbage"][0]
+            o.exclude("C20-F1-candidate")
+    if app == "rnaplot" and _candidate_open("C20-F2-candidate"):
+        # rna.ss must exist whenever clean_up() runs after a launch: the tool writes it first, always
+        narrowed = False
+        if tool["mode"] == "missing":
+            tool["mode"], tool["garbage"] = "garbage", "text"
+            narrowed = True
+        if tool["mode"] == "exit" and not tool.get("write_before_exit"):
+            tool["write_before_exit"] = True
+            narrowed = True
+        if tool["gate"] and not tool.get("early_output"):
+            tool["early_output"] = True
+            narrowed = True
+        if narrowed:
+            o.exclude("C20-F2-candidate")
+    return tool
+
+
+def run_tool(case):
+    o = Outcome()
+    name = case["app"]
+    spec = TOOL_APPS[name]
+    old_cwd = os.getcwd()
+    work = tempfile.mkdtemp(prefix="verif_c20w_")
+    os.chdir(work)  # RNAplot writes into the working directory: every case gets its own
+    sess = None
+    problem = None
+    try:
+        sess = Session()
+        tool = _narrow_tool(case, o)
+        case = dict(case, tool=tool)
+        if name == "rnaplot":
+            case["ops"] = [op for op in case["ops"] if not (op[0] == "set_exec_dir" and op[1] in (0, 1))]
+        drv = _DRIVERS[name](case, o, sess)
+        ctl = dict(tool)
+        ctl["plan"] = drv.plan
+        if name == "dssp":
+            ctl["version"] = DSSP_VERSIONS[drv.version]
+        sess.write_ctl(ctl)
+        o.label(f"app={name}", f"bin={case['bin']}")
+
+        cls = _counted(_tool_class(name))
+        bin_path = sess.bin_path(case["bin"], spec["tool"])
+        if name == "dssp" and case["bin"] != "ok":
+            # DsspApp probes the version of the binary in its constructor
+            o.expect_raises(OSError, lambda: drv.construct(cls, bin_path), "launch_failure_propagates", "constructor probing the version of a missing tool")
+            o.check_eq(sess.tmp_listing(), [], "no_temp_file_left", "after failed version probe")
+            o.check_eq(os.getcwd(), sess.cwd0, "cwd_unchanged", "after failed version probe")
+            o.label("path=ctor_launch_failure", f"{name}:ctor_launch_failure")
+            return o
+        app = drv.construct(cls, bin_path)
+        sess.app = app
+        o.check_eq(sess.log(), [], "tool_started_once", "the tool ran before start()")
+
+        def join_outcome():
+            return {"ok": "ok", "exit": "subprocess_error"}.get(tool["mode"], "any_error")
+
+        def check_command(val):
+            parts = val.split(" ")
+            o.check_eq(parts[0], bin_path, "command_reports_invocation", "first word of get_command")
+            o.check_eq(parts[1 : 1 + len(model.options)], model.options, "options_precede_arguments", f"get_command {val}")
+
+        def wait_for_output():
+            # harness synchronisation, no verdict: RNAplot's result file exists from here on
+            t_end = time.monotonic() + 25.0
+            while time.monotonic() < t_end:
+                if any(r.get("phase") == "output" for r in sess.log()):
+                    return
+                if _is_dead(app.verif_proc.pid):
+                    return
+                time.sleep(0.003)
+            raise RuntimeError("fake tool did not produce its output within the bounded wait")
+
+        hooks = {
+            "join_outcome": join_outcome,
+            "failure_path": lambda: "missing_output" if tool["mode"] == "missing" else "garbage",
+            "want_exit_code": lambda: tool.get("exit_code", 0) if tool["mode"] == "exit" else 0,
+            "want_stdout": None,
+            "check_command": check_command,
+            "check_results": drv.check_results,
+            "check_argv": drv.check_argv,
+            "check_input": drv.check_input,
+            "op": drv.op,
+            "getter": drv.getter,
+        }
+        if name == "rnaplot" and _candidate_open("C20-F2-candidate"):
+            hooks["after_start"] = wait_for_output
+        model = ToolModel(o, sess, app, case, hooks)
+        drv.model = model
+        model.run_ops()
+        model.labels()
+        o.label(f"{name}:{model.path}")
+        if tool["mode"] == "garbage" and model.path == "garbage":
+            o.label(f"{name}:garbage={tool['garbage']}")
+    finally:
+        try:
+            if sess is not None:
+                problem = sess.close()
+        finally:
+            os.chdir(old_cwd)
+            shutil.rmtree(work, ignore_errors=True)
+    # exit code 93 = "the plan does not fit the input": a harness problem unless the wrapper handed
+    # the wrong input to the tool (then it is the violation recorded above)
+    if problem and not any(c.startswith("input_") or c == "constraints_passed_to_tool" for c, _ in o.violations):
+        raise RuntimeError(problem)
+    return o
+
+
 # --------------------------------------------------------------------------
 SUBS = [
     Sub(
@@ -1421,6 +2233,17 @@ SUBS = [
         rule="terminal state reached through non-zero exit, timeout, garbage/missing output, launch failure or cancel",
         clauses="ClustalOmegaApp/MafftApp/MuscleApp/Muscle5App: life cycle, temp files removed, alignment and order "
         "equal the tool's output mapped back to input order and sequence type",
+    ),
+    Sub(
+        "tool_lifecycle",
+        st_tool,
+        run_tool,
+        quick=2400,
+        thorough=48000,
+        rule="terminal state reached through non-zero exit, timeout, garbage/missing output, launch failure or cancel",
+        clauses="TantanApp/RNAfoldApp/RNAplotApp/RNAalifoldApp/DsspApp: life cycle, setters only before the start, temp files "
+        "and working directory clean, getters equal the fake tool's output (mask, structure, base pairs, energies, "
+        "coordinates, SSE per residue), the tool received the given input and options",
     ),
 ]
 
